@@ -52,6 +52,8 @@ def run(chk: Check) -> None:
                 files[k] = texts[(i // 2) % len(texts)].replace("{PKG}", cm["pkg"]).replace("{ALT}", cm["alt"])
         if i % 9 == 0:  # a requirements file as `pip freeze >` writes it under PowerShell: UTF-16 with a BOM
             files["requirements.txt"] = {"b64": base64.b64encode("requests==2.31.0\r\nflask>=2.0\r\n".encode("utf-16")).decode()}
+        if i % 4 == 1:  # a file the codemod fails on: it is reported failed by the dry run and by the real run alike
+            files["broken.py"] = "def broken(:\n    pass\n"
         argv = ["{dir}", "--output", "{out}", "--codemod-include", cm["id"]]
         dep_scn.append({"id": f"C04-dep-{i}", "files": files, "_v": {"program": "deps", "layout": "lf", "manifest": ",".join(f"{k}={v}" for k, v in sorted(m.items()) if v != "none"),
                                                                        "queue": [cm["id"]], "dryRun": True, "workers": 1},
